@@ -8,7 +8,15 @@ KB = 3.166811563455557e-6
 
 
 def _keys(samples):
-    return [tuple(int(v) for v in s[3]["seed_sequence"].spawn_key) for s in samples]
+    """identity of the seed each sample carries: (entropy, spawn key) of a SeedSequence, or the plain value of anything else"""
+    out = []
+    for s in samples:
+        q = s[3]["seed_sequence"]
+        if isinstance(q, np.random.SeedSequence):
+            out.append(("seq", str(q.entropy), tuple(int(v) for v in q.spawn_key)))
+        else:
+            out.append(("plain", repr(q)))
+    return out
 
 
 @safe_oracle
@@ -100,6 +108,12 @@ def oracle_const_normal(args):
                 problems.append("negative momentum yielded")
     if len(set(_keys(s))) != len(s):
         problems.append("normal generator: seed sequences not distinct")
+    big = list(mudslide.TrajGenNormal(x0, k0 + 50.0, 0, sigma, seed=args["seed"], seed_traj=args["tseed"])(6000)) if args.get("big") else []
+    kb = _keys(big)
+    if len(set(kb)) != len(kb):
+        dup = [k for k in set(kb) if kb.count(k) > 1][:1]
+        problems.append("normal generator: %d of 6000 samples carry a seed that another sample of the same call carries too (e.g. %r)"
+                        % (len(kb) - len(set(kb)), dup))
     s_again = list(g(ns))
     if len(set(_keys(s) + _keys(s_again))) != len(s) + len(s_again):
         problems.append("normal generator: a second call hands out the seed sequences of the first again")
@@ -161,7 +175,7 @@ def run(ctx):
         k0 = np.abs(rng.normal(size=n)) * rng.choice([0.3, 3.0, 30.0])
         sigma = 10 ** rng.uniform(-0.7, 1.3, size=n)
         args = {"x0": x0, "k0": k0, "sigma": sigma, "ns": int(rng.integers(1, 9)),
-                "seed": int(rng.integers(1, 2 ** 31)), "tseed": int(rng.integers(1, 2 ** 31))}
+                "seed": int(rng.integers(1, 2 ** 31)), "tseed": int(rng.integers(1, 2 ** 31)), "big": i % 25 == 0}
         r2 = np.random.default_rng(args["tseed"])
         zx, zk = r2.standard_normal(n), r2.standard_normal(n)
         g = mudslide.TrajGenNormal(x0, k0, 0, sigma, seed=args["seed"], seed_traj=args["tseed"])
